@@ -228,6 +228,19 @@ pub fn c13(d: &Digest, out: &mut Vec<Violation>) {
         }
     }
     v(out, "C13", "deadlock", format!("no thread can run: {}", blocked.join("; ")));
+    // a dispatch() under the blocking policy that never returns is also C05's business: the
+    // caller must resume as soon as the reducer makes room, and the reducer must keep making room
+    for sd in &d.stores {
+        if sd.model.policy != Policy::Block {
+            continue;
+        }
+        if let Some(c) = sd.dispatches.iter().map(|&c| &d.calls[c]).find(|c| c.ret.is_none()) {
+            if let OpK::Dispatch { act, .. } = c.op {
+                v(out, "C05", "dispatch-never-resumed", format!("store {}: dispatch of action {act} under BlockOnFull never returned: {}", sd.idx, blocked.join("; ")));
+                break;
+            }
+        }
+    }
 }
 
 fn c13_complete(d: &Digest, out: &mut Vec<Violation>) {
